@@ -320,6 +320,16 @@ theorem finalState_canon (ops : List String) {s : State} (h : Canon s) : Canon (
   | nil => exact h
   | cons op r ih => exact ih (modelOp_canon h op)
 
+/-- NOT PROVED (kept visible): the suite's judge accepts the suite's model on every script, at string level.
+    What is proved instead: the model's schedule is a run of the transition system that is quiescent after every
+    `quiesce` (`model_quiesce_is_quiescent`, `finalState_canon`), so `quiescent_delivered_mem` describes what it
+    prints in terms of `latest (hist p)`.  Missing: the simulation between the judge's per-config bookkeeping
+    (`JSt.live`, keyed by config id) and the model's per-provider ghost history (keyed by provider id, one
+    provider per configured config), and `renderSnap` being invariant under the two enumeration orders.
+    The correspondence run checks exactly this equation on every generated script (model = impl, judge(impl) = ok). -/
+def judge_accepts_model_full : Prop :=
+  ∀ ops : List String, Prom.Discovery.Suite.judge ops (Prom.Discovery.Suite.model ops) = "ok"
+
 /-! ### the hypotheses are satisfiable: a concrete run with three jobs, a shared provider, the static
     fallback, a slow consumer (failed hand-over, re-armed) and an emptied source; and a reload dropping a provider -/
 
